@@ -30,6 +30,7 @@ struct FsLog {
 	int64_t a = 0, b = 0;    // mode / uid / time ...
 	std::string target;      // symlink target
 	uint64_t clock = 0;
+	bool injected = false;   // the error is an injected fault (F-SYSCALL), not the filesystem's own answer
 };
 
 struct SimStat { char type; int mode, uid, gid, ino; int64_t mtime, size; };
@@ -44,6 +45,7 @@ public:
 	std::vector<FsLog> log;
 	// one-shot syscall faults: (call name, n-th call of that name) -> errno
 	std::map<std::pair<std::string, int>, int> faults;
+	bool pending_injected = false;
 	std::map<std::string, int> calls;
 	Counters *counters = nullptr;
 	std::function<void(const FsLog &)> on_op;   // invariant hook, called after every logged op
